@@ -18,14 +18,23 @@ RULE = ("'table': all 118 elements (exhaustive) - symbol, IUPAC name, Z = index+
         "mass is summed with Fractions from the AST composition and the table column relative_atomic_masses (itself judged "
         "by 'table'), the electron term only has to lie in the stated interval.  'metamorphic': hydrate additivity, group "
         "scaling, ion-vs-neutral on formulas assembled from neutral G1 bodies.  'fractions': mixtures of 1-6 distinct G1 "
-        "formulas with positive integer/float coefficients (dict) or unit multiplicity (set).  Non-trivial = formula(s) "
-        "with >= 3 distinct elements and a charge or a hydrate part; for 'table' every element; distinct by case digest.")
+        "formulas with positive integer/float coefficients (dict) or unit multiplicity (set); 'fractions_args': the same "
+        "mixtures with the substances= mapping (permuted key order, unrelated extra entries, dict/OrderedDict, keys = "
+        "formula or label) or a substance_factory=.  'shared_data': a short history - several substances created with "
+        "one shared free-form data dict (or own / none), masses and mass fractions read repeatedly and in generated "
+        "order, every value against the reference mass of its own formula.  Non-trivial = formula(s) "
+        "with >= 3 distinct elements and a charge or a hydrate part (and >= 2 distinct formulas where several are "
+        "involved); for 'table' every element; distinct by case digest.")
 ASSUMPTIONS = [
     "vlib/refdata.py: own transcription of the IUPAC/CIAAW table (symbols, names, abridged standard atomic weights 2013/2015, "
     "mass number of the longest-lived isotope where no standard weight exists, main-group columns)",
     "standard weights are compared with relative tolerance 2e-4 (absorbs the CIAAW 2013-2021 revisions), mass numbers +-4",
     "electron mass in u: any constant within 1e-6 of 5.4858e-4 is accepted (the code's 5.489e-4 is inside)",
     "the formula parser is trusted only as far as C01 checks it: a wrong composition also shows up here",
+    "a data record with an explicit 'mass' entry (documented override of the computed mass) is outside the statement "
+    "and not generated; whether reading a mass leaves the caller's data dict untouched is not judged, only the values read",
+    "with substances= the keys of the mixture are whatever the mapping is keyed by (formula text or a label): the mass "
+    "is that of the mapped substance",
 ]
 
 # -- tolerances ------------------------------------------------------------------------------------------------
@@ -358,7 +367,32 @@ def check_metamorphic(case, ctx):
 # ---------------------------------------------------------------------------------------------------------------
 
 @st.composite
-def mixtures(draw):
+def call_variants(draw, n):
+    """How mass_fractions(stoichiometries, substances=None, substance_factory=Substance.from_formula) is called."""
+    how = draw(st.sampled_from(["substances", "substances", "factory"]))
+    if how == "substances":
+        n_extra = draw(st.integers(0, 3))
+        return {"how": "substances",
+                # unrelated substances that are in the mapping but not in the mixture (a shared registry)
+                "extras": [draw(G.formulas(max_depth=2, max_terms=3)) for _ in range(n_extra)],
+                # position of each entry (mixture keys first, then extras) in the mapping: stable sort by these
+                # priorities; all 0 = the order of the stoichiometry
+                "order": [draw(st.integers(0, 9)) for _ in range(n + n_extra)],
+                "container": draw(st.sampled_from(["dict", "OrderedDict"])),
+                "stoich_container": draw(st.sampled_from(["dict", "OrderedDict"])),
+                "keys": draw(st.sampled_from(["formula", "formula", "alias"])),
+                "cls": draw(st.sampled_from(["Substance", "Substance", "Species"])),
+                "positional": draw(st.booleans())}
+    factory = draw(st.sampled_from(["Substance.from_formula", "Species.from_formula", "wrapper", "table_lookup"]))
+    return {"how": "factory", "factory": factory,
+            "stoich_container": draw(st.sampled_from(["dict", "OrderedDict"])),
+            "keys": draw(st.sampled_from(["formula", "alias"])) if factory == "table_lookup" else "formula",
+            "cls": draw(st.sampled_from(["Substance", "Species"])) if factory == "table_lookup" else "Substance",
+            "positional": draw(st.booleans())}
+
+
+@st.composite
+def mixtures(draw, with_call=False):
     n = draw(st.integers(1, 6))
     kind = draw(st.sampled_from(["dict_int", "dict_int", "dict_float", "set"]))
     items = []
@@ -371,62 +405,266 @@ def mixtures(draw):
         else:
             c = 1
         items.append({"f": f, "c": c})
-    return {"kind": kind, "items": items}
+    case = {"kind": kind, "items": items}
+    if with_call:
+        case["call"] = draw(call_variants(n))
+    return case
 
 
-def check_fractions(case, ctx):
-    P = _periodic()
-    from chempy import mass_fractions
-    ram = P.relative_atomic_masses
-    ctx.label(case["kind"], "n=%d" % len(case["items"]))
-    stoich = {}
-    info = {}
-    nontriv = False
-    for it in case["items"]:
-        t = G.text(it["f"])
-        if t in stoich:
-            ctx.label("duplicate_key_dropped")
-            continue
-        stoich[t] = it["c"]
-        comp = G.composition(it["f"])
-        base, asum, z = ref_mass_parts(comp, ram)
-        info[t] = (base, asum, z, Fraction(it["c"]))
-        nontriv = nontriv or _nontrivial(G.stats(it["f"]))
-    ctx.nontrivial(nontriv and len(stoich) >= 2)
-    arg = set(stoich) if case["kind"] == "set" else dict(stoich)
-    got = sut(mass_fractions, arg)
-    if is_err(got):
-        ctx.fail("mass_fractions_raises", keys=sorted(stoich), error=repr(got))
-        return
-    if not isinstance(got, dict) or set(got) != set(stoich):
-        ctx.fail("keys", got=sorted(map(str, got)) if isinstance(got, dict) else repr(got), expected=sorted(stoich))
-        return
+def _mass_interval(comp, ram, c=Fraction(1)):
+    """[lo, hi] of c * mass for a reference composition (electron constant anywhere in [ME_LO, ME_HI])."""
+    lo, hi = mass_window(comp, ram)
+    return c * lo, c * hi
+
+
+def judge_fractions(ctx, got, stoich, comps, ram, **where):
+    """got: what mass_fractions returned for {key: coefficient}; comps: key -> reference composition.
+    Positive, sum to one, f_i = c_i m_i / sum_j c_j m_j with m from the reference model.  False if a clause failed."""
+    keys = list(stoich)
+    if not isinstance(got, dict) or set(got) != set(keys):
+        ctx.fail("keys", got=sorted(map(str, got)) if isinstance(got, dict) else repr(got), expected=sorted(keys), **where)
+        return False
     for k, v in got.items():
         if not _is_real(v):
-            ctx.fail("fraction_not_a_finite_number", key=k, got=repr(v))
-            return
-        ctx.require(v > 0, "fraction_not_positive", key=k, got=v)
+            ctx.fail("fraction_not_a_finite_number", key=k, got=repr(v), **where)
+            return False
+        ctx.require(v > 0, "fraction_not_positive", key=k, got=v, **where)
     total = sum(Fraction(v) for v in got.values())
     # n <= 6 quotients, each within 2 ulp of c*m/T with the same float T: |sum - 1| <= 6*2*2**-53 < 1e-12
-    ctx.require(abs(total - 1) <= Fraction(1, 10 ** 12), "fractions_do_not_sum_to_one", total=float(total), keys=sorted(stoich))
-    # proportional to coefficient*mass: f_i = c_i m_i / sum_j c_j m_j with m from the reference model; the electron
-    # constant is only known to ME_TOL, which gives each c_i*m_i the interval [lo_i, hi_i]
-    lo_hi = {}
-    for t, (base, asum, z, c) in info.items():
-        a, b = base - z * ME_LO, base - z * ME_HI
-        tol = REL_SUM * (asum + abs(z) * ME_HI)
-        lo_hi[t] = (c * (min(a, b) - tol), c * (max(a, b) + tol))
-    for t in stoich:
+    ok = abs(total - 1) <= Fraction(1, 10 ** 12)
+    ctx.require(ok, "fractions_do_not_sum_to_one", total=float(total), keys=sorted(keys), **where)
+    # proportional to coefficient*mass: the electron constant is only known to ME_TOL, which gives each c_i*m_i the
+    # interval [lo_i, hi_i]
+    lo_hi = {k: _mass_interval(comps[k], ram, Fraction(stoich[k])) for k in keys}
+    for t in keys:
         lo_i, hi_i = lo_hi[t]
-        rest_lo = sum(lo_hi[u][0] for u in stoich if u != t)
-        rest_hi = sum(lo_hi[u][1] for u in stoich if u != t)
+        rest_lo = sum(lo_hi[u][0] for u in keys if u != t)
+        rest_hi = sum(lo_hi[u][1] for u in keys if u != t)
         f_lo = lo_i / (lo_i + rest_hi)
         f_hi = hi_i / (hi_i + rest_lo)
         # two more float operations (product, quotient) on top of the sums: 1e-12 relative
         slack = Fraction(1, 10 ** 12)
         v = Fraction(got[t])
         if not (f_lo * (1 - slack) <= v <= f_hi * (1 + slack)):
-            ctx.fail("fraction_not_proportional", key=t, got=got[t], lo=float(f_lo), hi=float(f_hi), stoich=stoich)
+            ctx.fail("fraction_not_proportional", key=t, got=got[t], lo=float(f_lo), hi=float(f_hi), stoich=stoich, **where)
+            return False
+    return ok
+
+
+def _factory_of(name):
+    from chempy import Substance, Species
+    return {"Substance": Substance.from_formula, "Species": Species.from_formula}[name]
+
+
+def check_fractions(case, ctx):
+    P = _periodic()
+    from collections import OrderedDict
+    from chempy import mass_fractions
+    ram = P.relative_atomic_masses
+    call = case.get("call") or {"how": "plain"}
+    ctx.label(case["kind"], "n=%d" % len(case["items"]))
+    alias = call.get("keys") == "alias"
+    entries = []          # (key, formula text, AST, coefficient), distinct formula texts
+    seen = set()
+    nontriv = False
+    for i, it in enumerate(case["items"]):
+        t = G.text(it["f"])
+        if t in seen:
+            ctx.label("duplicate_key_dropped")
+            continue
+        seen.add(t)
+        entries.append(("S%d" % i if alias else t, t, it["f"], it["c"]))
+        nontriv = nontriv or _nontrivial(G.stats(it["f"]))
+    ctx.nontrivial(nontriv and len(entries) >= 2)
+    stoich = {k: c for k, _, _, c in entries}
+    comps = {k: G.composition(f) for k, _, f, _ in entries}
+    if case["kind"] == "set":
+        arg = set(stoich)
+    else:
+        arg = OrderedDict(stoich.items()) if call.get("stoich_container") == "OrderedDict" else dict(stoich)
+
+    if call["how"] == "plain":
+        got = sut(mass_fractions, arg)
+    elif call["how"] == "substances":
+        make = _factory_of(call["cls"])
+        table = [(k, t) for k, t, _, _ in entries]
+        for j, f in enumerate(call["extras"]):
+            t = G.text(f)
+            if t not in seen:          # an extra that repeats a mixture formula would be the same key
+                seen.add(t)
+                table.append(("X%d" % j if alias else t, t))
+        prio = list(call["order"]) + [0] * len(table)
+        arranged = [table[i] for i in sorted(range(len(table)), key=lambda i: (prio[i], i))]
+        pairs = []
+        for k, t in arranged:
+            sub = sut(make, t)
+            if is_err(sub):
+                ctx.fail("from_formula_raises", text=t, error=repr(sub))
+                return
+            pairs.append((k, sub))
+        mapping = OrderedDict(pairs) if call["container"] == "OrderedDict" else dict(pairs)
+        same_order = [k for k, _ in arranged][:len(entries)] == [k for k, _, _, _ in entries]
+        ctx.label("substances=", "extras=%d" % (len(table) - len(entries)), "keys:" + call["keys"], "cls:" + call["cls"],
+                  call["container"], "mapping_order:" + ("same_prefix" if same_order else "permuted"))
+        got = sut(mass_fractions, arg, mapping) if call["positional"] else sut(mass_fractions, arg, substances=mapping)
+    else:
+        from chempy import Substance
+        name = call["factory"]
+        ctx.label("substance_factory=" + name, "keys:" + call["keys"])
+        if name == "table_lookup":
+            make = _factory_of(call["cls"])
+            lookup = {}
+            for k, t, _, _ in entries:
+                sub = sut(make, t)
+                if is_err(sub):
+                    ctx.fail("from_formula_raises", text=t, error=repr(sub))
+                    return
+                lookup[k] = sub
+            factory = lookup.__getitem__
+        elif name == "wrapper":
+            factory = lambda key: Substance.from_formula(key)      # noqa: E731
+        else:
+            factory = _factory_of(name.split(".")[0])
+        got = sut(mass_fractions, arg, None, factory) if call["positional"] else \
+            sut(mass_fractions, arg, substance_factory=factory)
+    if is_err(got):
+        ctx.fail("mass_fractions_raises", keys=sorted(stoich), error=repr(got), how=call["how"])
+        return
+    judge_fractions(ctx, got, stoich, comps, ram, how=call["how"])
+
+
+# ---------------------------------------------------------------------------------------------------------------
+# several substances, several reads (a small history): shared `data` records, repeated and reordered reads
+# ---------------------------------------------------------------------------------------------------------------
+
+# free-form `data` records without a 'mass' entry (an explicit data['mass'] overrides the computed mass: not the
+# mass "of a substance created from a formula" the statement speaks about)
+RECORDS = [{"source": "supplier catalogue", "purity": 0.99}, {"pKa": 9.24}, {"note": ""},
+           {"cas": "7732-18-5", "refs": [1, 2]}]
+
+
+@st.composite
+def shared_data_cases(draw):
+    n = draw(st.integers(2, 4))
+    formulas = [draw(G.formulas(max_depth=3, max_terms=4)) for _ in range(n)]
+    mode = draw(st.sampled_from(["shared", "shared", "shared_empty", "groups", "own", "none"]))
+    rec = lambda: draw(st.sampled_from(RECORDS))       # noqa: E731
+    if mode == "shared":
+        dicts, data_of = [rec()], [0] * n
+    elif mode == "shared_empty":
+        dicts, data_of = [{}], [0] * n
+    elif mode == "groups":
+        dicts = [rec() if draw(st.booleans()) else {}, rec()]
+        data_of = [draw(st.sampled_from([0, 1, None])) for _ in range(n)]
+    elif mode == "own":
+        r = rec()
+        dicts, data_of = [r] * n, list(range(n))
+    else:
+        dicts, data_of = [], [None] * n
+    ops = []
+    for _ in range(draw(st.integers(2, 8))):
+        k = draw(st.integers(0, 9))
+        if k < 6:
+            ops.append(["mass", draw(st.integers(0, n - 1))])
+        elif k < 7:
+            ops.append(["molar_mass", draw(st.integers(0, n - 1))])
+        else:
+            idx = draw(st.lists(st.integers(0, n - 1), min_size=1, max_size=n, unique=True))
+            ops.append(["fractions", idx, [draw(st.integers(1, 20)) for _ in idx], draw(st.booleans())])
+    return {"formulas": formulas, "mode": mode, "dicts": dicts, "data_of": data_of, "ops": ops,
+            "lazy": draw(st.booleans()), "cls": draw(st.sampled_from(["Substance", "Substance", "Species"]))}
+
+
+def check_shared_data(case, ctx):
+    """Substances are created with Cls.from_formula(text[, data=<dict>]) where several of them may be given the *same*
+    dict object; then masses / molar masses / mass fractions are read in the order of case['ops'] and finally every
+    mass once more.  Every value read is judged against the reference mass of *its own* formula."""
+    import copy
+    import quantities as pq
+    P = _periodic()
+    from chempy import mass_fractions
+    ram = P.relative_atomic_masses
+    make = _factory_of(case["cls"])
+    formulas = case["formulas"]
+    n = len(formulas)
+    texts = [G.text(f) for f in formulas]
+    comps = [G.composition(f) for f in formulas]
+    dicts = [copy.deepcopy(d) for d in case["dicts"]]          # one dict object per entry, shared by reference below
+    subs = [None] * n
+    reads = [0] * n
+    ctx.label("mode:" + case["mode"], "cls:" + case["cls"], "lazy" if case["lazy"] else "eager", "n=%d" % n)
+    shared_nonempty = any(case["data_of"].count(j) >= 2 and case["dicts"][j] for j in range(len(dicts)))
+    shared_empty = any(case["data_of"].count(j) >= 2 and not case["dicts"][j] for j in range(len(dicts)))
+    ctx.label("data:shared_nonempty" if shared_nonempty else "data:shared_empty" if shared_empty else "data:not_shared")
+    ctx.nontrivial(len(set(texts)) >= 2 and any(_nontrivial(G.stats(f)) for f in formulas))
+
+    def get(i):
+        if subs[i] is None:
+            j = case["data_of"][i]
+            sub = sut(make, texts[i]) if j is None else sut(make, texts[i], data=dicts[j])
+            if is_err(sub):
+                ctx.fail("from_formula_raises", text=texts[i], error=repr(sub))
+                return None
+            subs[i] = sub
+        return subs[i]
+
+    def judge_mass(i, m, step, what):
+        if not _is_real(m):
+            ctx.fail("mass_not_a_finite_number", text=texts[i], got=repr(m), step=step, read=what)
+            return False
+        lo, hi = mass_window(comps[i], ram)
+        if not (lo <= Fraction(m) <= hi):
+            ctx.fail("mass_vs_formula_in_sequence", text=texts[i], got=m, lo=float(lo), hi=float(hi), step=step, read=what,
+                     mode=case["mode"], texts=texts)
+            return False
+        return True
+
+    if not case["lazy"]:
+        for i in range(n):
+            if get(i) is None:
+                return
+    seen_fractions = False
+    for step, op in enumerate(case["ops"]):
+        if op[0] in ("mass", "molar_mass"):
+            sub = get(op[1])
+            if sub is None:
+                return
+            if op[0] == "mass":
+                m = sub.mass
+            else:
+                mm = sub.molar_mass()
+                m = float(mm.rescale(pq.g / pq.mol).magnitude)      # one multiplication by 1.0 g/mol: same number
+            reads[op[1]] += 1
+            if reads[op[1]] > 1:
+                ctx.label("mass_read_again")
+            if seen_fractions:
+                ctx.label("mass_read_after_fractions")
+            if not judge_mass(op[1], m, step, op[0]):
+                return
+        else:
+            _, idx, coefs, whole_table = op
+            stoich, fcomps = {}, {}
+            for i, c in zip(idx, coefs):
+                if get(i) is None:
+                    return
+                if texts[i] not in stoich:               # the same formula drawn twice: one key
+                    stoich[texts[i]] = c
+                    fcomps[texts[i]] = comps[i]
+            members = idx if not whole_table else [i for i in range(n) if subs[i] is not None]
+            table = {}
+            for i in members:
+                table.setdefault(texts[i], subs[i])
+            ctx.label("fractions_of_created_substances", "whole_table" if whole_table else "members_only")
+            got = sut(mass_fractions, dict(stoich), substances=table)
+            if is_err(got):
+                ctx.fail("mass_fractions_raises", keys=sorted(stoich), error=repr(got), step=step)
+                return
+            seen_fractions = True
+            if not judge_fractions(ctx, got, stoich, fcomps, ram, step=step, mode=case["mode"]):
+                return
+    for i in range(n):              # finally every substance once more, in index order
+        sub = get(i)
+        if sub is None or not judge_mass(i, sub.mass, "final", "mass"):
             return
 
 
@@ -449,4 +687,18 @@ SUBCHECKS = [
     SubCheck("fractions", check_fractions, strategy=mixtures(), quick=600, thorough=30000,
              rule="1-6 distinct G1 formulas, coefficients int 1..1e6 / positive floats / set (unit multiplicity)",
              tolerances={"sum_to_one_abs": 1e-12, "proportional_rel": 1e-12}),
+    SubCheck("fractions_args", check_fractions, strategy=mixtures(with_call=True), quick=600, thorough=30000,
+             rule="the same mixtures through the other two parameters of mass_fractions: substances= a dict/OrderedDict "
+                  "of Substance/Species objects in the order of the stoichiometry or permuted, with 0-3 unrelated extra "
+                  "entries, keyed by the formula or by a label; substance_factory= Substance.from_formula, "
+                  "Species.from_formula, a wrapper, a table lookup; by keyword or by position",
+             tolerances={"sum_to_one_abs": 1e-12, "proportional_rel": 1e-12}),
+    SubCheck("shared_data", check_shared_data, strategy=shared_data_cases(), quick=600, thorough=30000,
+             rule="2-4 substances from G1 formulas via Substance/Species.from_formula(text[, data=d]) with one free-form "
+                  "dict d (non-empty or empty, no 'mass' entry) shared by all / by groups / own copies / none, created up "
+                  "front or at first use; 2-8 reads (.mass, .molar_mass(), mass_fractions(..., substances=<these "
+                  "objects>)) in generated order with repeats, then every mass once more; each value against the "
+                  "reference mass of its own formula",
+             tolerances={"float_sum_rel_to_sum_abs_terms": float(REL_SUM), "electron_mass_u": [float(ME_LO), float(ME_HI)],
+                         "sum_to_one_abs": 1e-12, "proportional_rel": 1e-12}),
 ]
